@@ -356,6 +356,11 @@ func (s *controlledSelector) shouldSwitchSelectedPair(pair, selectedPair *Candid
 		s.log.Debugf("Accepting renomination to pair %s (nomination value: %d)", pair, *nominationValue)
 
 		return true
+	case s.lastNomination != nil:
+		// A nomination with a value has been accepted: the latest of those wins. A nomination
+		// without a value (e.g. a delayed or retransmitted initial nomination) does not move
+		// the selection away from it.
+		return false
 	}
 
 	// Standard ICE nomination without renomination - apply priority rules
@@ -450,6 +455,10 @@ func (s *controlledSelector) HandleSuccessResponse(
 			if selectedPair != pair {
 				s.agent.setSelectedPair(pair)
 			}
+		case selectedPair != nil && selectedPair != pair && s.lastNomination != nil:
+			// A nomination with a value has been accepted since: a deferred nomination without
+			// a value does not move the selection away from it.
+			s.log.Tracef("Ignore deferred nomination for pair %s, renomination in use", pair)
 		case selectedPair == nil ||
 			(selectedPair != pair &&
 				(!s.agent.needsToCheckPriorityOnNominated() || selectedPair.priority() <= pair.priority())):
